@@ -6,7 +6,7 @@ TRUSTED_BASE = [
     "axioms allowed in property theorems: propext, Quot.sound, Classical.choice (audited with collectAxioms on every theorem of the property's modules); no sorry/admit/native_decide/bv_decide/user axioms",
     "tools/gen (Go->Lean translator, re-run on /repo's working tree on every check; it refuses what it does not model - DESIGN section 12 'soundness envelope', tools/gen/selftest) and its validation by the correspondence run",
     "tools/okgen (source-to-source generator of the no-panic twins Gen/K*.lean): trusted to guard every panic source it claims to (panic statements, index expressions, calls of functions that can panic; slice expressions, type assertions, non-constant integer division are refused); its output is ordinary Go translated by tools/gen",
-    "Base/F64.lean soft-float: proved IEEE-754 round-to-nearest-even / exact for all finite operands against the decoding Spec.F64Val.ofBits (Props/IEEE.lean); trusted: that decoding (15 lines), Base/FB.lean on Inf operands and on NaN operands other than the cases proved in Props/IEEE (v4.0 Score does compute with NaN: `math.NaN()` for a missing next-lower MacroVector, `abs(NaN - x)`, `math.IsNaN` - exactly the facts `sub_nan_correct`, `abs_correct`, `isNaN_correct`; no other package produces NaN or Inf), NaN payloads unmodelled; also validated against the hardware by the float stream",
+    "Base/F64.lean soft-float (F64.intRemZero = gc/amd64's int(f)%c==0 incl. the out-of-range result -2^63: trusted, validated on boundary cases): proved IEEE-754 round-to-nearest-even / exact for all finite operands against the decoding Spec.F64Val.ofBits (Props/IEEE.lean); trusted: that decoding (15 lines), Base/FB.lean on Inf operands and on NaN operands other than the cases proved in Props/IEEE (v4.0 Score does compute with NaN: `math.NaN()` for a missing next-lower MacroVector, `abs(NaN - x)`, `math.IsNaN` - exactly the facts `sub_nan_correct`, `abs_correct`, `isNaN_correct`; no other package produces NaN or Inf), NaN payloads unmodelled; also validated against the hardware by the float stream",
     "Base/Go.lean: Go semantics of the translated subset (uint8 wrap-around, switch, range loops, errors)",
     "parsers: regenerated from the source (Gen/P*.lean) and proved equal to the readable models Model/Parse.lean (Props/ParseTie.lean); trusted: the translator's Go semantics for strings, slices, loops and sync.Pool.Get (any buffer of the length splitPool.New makes: regenerated fact pool_new, pinned to 14 slots by StateTie.pool20)",
     "Spec/*.lean: our transcription of the FIRST v2.0/v3.0/v3.1/v4.0 documents; v4 lookup table from an independent transcription (spec-data/)",
